@@ -265,6 +265,20 @@ theorem report_only_after_handover (cfg : NCfg) (hall : cfg.rangeAll = true)
     ReportOnlyAfterHandover b (localDelivery cfg n b cons).2.1 = true :=
   Lemmas.report_only_after_handover cfg hall hguard n b cons
 
+/-- The same for everything an arriving copy (`Core.receive`: duplicate test, dispatching) and a
+run of the pending-bundles cron job (`Core.checkPendingBundles`: every pending bundle is dispatched
+again, e.g. after an agent registered its destination) put out: every "delivered" report is
+accompanied by a hand-over of that very bundle. -/
+theorem receive_reports_only_after_handover (cfg : NCfg) (hall : cfg.rangeAll = true)
+    (hguard : cfg.reportGuard = true) (n : Node) (b : Bundle) :
+    ∀ b', Out.report b' ∈ (receive cfg n b).2 → ∃ r, Out.handed r b' ∈ (receive cfg n b).2 :=
+  Lemmas.receive_reportsJustified cfg hall hguard n b
+
+theorem tick_reports_only_after_handover (cfg : NCfg) (hall : cfg.rangeAll = true)
+    (hguard : cfg.reportGuard = true) (n : Node) :
+    ∀ b', Out.report b' ∈ (tick cfg n).2 → ∃ r, Out.handed r b' ∈ (tick cfg n).2 :=
+  Lemmas.tick_reportsJustified cfg hall hguard n
+
 /-- **The retention constraint `LocalEndpoint` disappears only after a hand-over** (or the bundle
 is a malformed administrative record, which is deleted instead of delivered). -/
 theorem retention_only_after_handover (cfg : NCfg) (hall : cfg.rangeAll = true)
@@ -312,5 +326,13 @@ example : (localDelivery {} { nodeId := ⟨"n1", ""⟩, mux := exMux } exBundle 
       .handed (.ws 2 7) exBundle, .report exBundle], []) := by decide
 example : (localDelivery {} { nodeId := ⟨"n1", ""⟩ } exBundle [.dispatchPending]).2 =
     ([], [.dispatchPending, .localEndpoint]) := by decide
+-- a bundle for a foreign endpoint is forwarded and kept pending; after an agent registered the
+-- endpoint the next tick delivers it (with the report), a second tick does nothing
+example :
+    let b : Bundle := { tok := 9, dest := ⟨"n2", "a"⟩, reportTo := ⟨"rt", "9"⟩, reqDelivery := true }
+    let n₁ := (receive {} { nodeId := ⟨"n1", ""⟩ } b).1
+    let n₂ : Node := { n₁ with mux := (step {} n₁.mux (.addMock 0 [⟨"n2", "a"⟩])).1 }
+    (receive {} { nodeId := ⟨"n1", ""⟩ } b).2 = [.forward b] ∧
+    (tick {} n₂).2 = [.handed (.mock 0) b, .report b] ∧ (tick {} (tick {} n₂).1).2 = [] := by decide
 
 end Dtn7.Props.C07
